@@ -671,6 +671,20 @@ def violation_kind(what: str) -> str:
 # C19 — immutable snapshots
 # ============================================================================================
 
+def _iterable_kinds(val):
+    """mutable (and one immutable non-tuple) iterables able to hold the elements of `val`"""
+    import array
+    import collections
+    yield "list", list
+    yield "list_subclass", type("CallerList", (list,), {})
+    yield "deque", collections.deque
+    if all(type(x) is int and 0 <= x < 256 for x in val):
+        yield "bytearray", bytearray
+        yield "bytes", bytes
+    if all(type(x) is int and -2**63 <= x < 2**63 for x in val):
+        yield "array", lambda v: array.array("q", v)
+
+
 def run_c19(ctx: Ctx):
     rng = ctx.rng
     n = n_spec = 0
@@ -763,26 +777,32 @@ def run_c19(ctx: Ctx):
                             fails(ctx, case, f"{cname}: a deserialised instance changed when the caller overwrote the buffer it was read from "
                                   f"(`{a[:60]}` then `{b[:60]}`)", {"class": cname, "bytes": data.hex()})
                             return
-                # every array argument once as an (initially empty, where the declaration allows) caller-owned list
+                # every array argument once as an (initially empty, where the declaration allows) caller-owned mutable
+                # iterable of every kind its values fit in: list, list subclass, deque, array.array, bytearray (and bytes)
                 kw = ci.random_kwargs(rng, valid=True)
                 for name, val in list(kw.items()):
-                    if not isinstance(val, tuple):
+                    if not isinstance(val, (tuple, list)):
                         continue
-                    for start in ([], list(val)):
-                        mine = list(start)
-                        try:
-                            obj = cls(**dict(kw, **{name: mine}))
-                        except Exception:  # noqa: BLE001
-                            continue
-                        first = genlib.do_ser(cls, obj, False)
-                        ro = genlib.render(obj)
-                        mine.extend(val[:1] or (0,))
-                        mine.reverse()
-                        n += 1
-                        if isinstance(getattr(obj, name), list) or genlib.do_ser(cls, obj, False) != first or genlib.render(obj) != ro:
-                            fails(ctx, case, f"{cname}.{name}: the instance follows later changes of the list it was built from "
-                                  f"(argument initially {start!r})", {"class": cname, "object": ro, "attribute": name})
-                            return
+                    val = tuple(val)
+                    for start in ((), val):
+                        for kind, mk in _iterable_kinds(val):
+                            try:
+                                mine = mk(start)
+                                obj = cls(**dict(kw, **{name: mine}))
+                            except Exception:  # noqa: BLE001
+                                continue
+                            first = genlib.do_ser(cls, obj, False)
+                            ro = genlib.render(obj)
+                            if hasattr(mine, "append"):
+                                mine.append(val[0] if val else 0)
+                                mine.reverse()
+                            n += 1
+                            ctx.count("array_argument_kind." + kind)
+                            if type(getattr(obj, name)) is not tuple or genlib.do_ser(cls, obj, False) != first or genlib.render(obj) != ro:
+                                fails(ctx, case, f"{cname}.{name}: built from a {kind} (initially {list(start)!r}) the field is a "
+                                      f"{type(getattr(obj, name)).__name__} / follows later changes of its argument",
+                                      {"class": cname, "object": ro, "attribute": name, "argument_kind": kind})
+                                return
         finally:
             close_case(case)
     ctx.part("classes (members vs model) and instances (setattr on every public field, caller-side list mutation, twice-serialise)", n, False,
@@ -813,6 +833,15 @@ RULES = {
 # C17 — ill-formed specifications are rejected
 # ============================================================================================
 
+def _wf_rejections(line: str) -> list:
+    """`gen wf` -> the rule sets (context / decls / packets / typed) whose declarative checker rejects the loaded forest"""
+    t = line.split()
+    if not t or t[0] != "ok":
+        return []
+    d = dict(zip(t[1::2], t[2::2]))
+    return [k for k in ("context", "decls", "packets", "typed") if d.get(k) == "0"]
+
+
 def run_c17(ctx: Ctx):
     rng = ctx.rng
     n = n_spec = 0
@@ -824,6 +853,14 @@ def run_c17(ctx: Ctx):
         try:
             if base.error is not None:
                 continue   # only valid specifications are edited
+            # the declarative checkers the theorems are stated over must accept what the real generator accepts
+            if base.forest is not None:
+                ctx.driver.ask1("gen load " + base.forest)
+                bad = _wf_rejections(ctx.driver.ask1("gen wf"))
+                if bad:
+                    fails(ctx, case, f"the generator accepts a specification that the declarative rules ({', '.join(bad)}) reject",
+                          {"checker": bad}, key="accepted:checker:" + "+".join(bad))
+                    return
         finally:
             base.cleanup()
         n_spec += 1
@@ -836,6 +873,17 @@ def run_c17(ctx: Ctx):
                 model = ctx.driver.ask1("gen load " + ed.run.forest)
                 real_rejects = ed.run.error is not None
                 n += 1
+                # which proved rule set (if any) decides this edit: context (rejects_ill_formed), decls / packets
+                # (rejects_ill_formed_decls), typed (rejects_ill_typed); otherwise only the catalogue's expectation
+                bad = _wf_rejections(ctx.driver.ask1("gen wf"))
+                ctx.count("edit_decided_by." + ("theorem:" + "+".join(bad) if bad else "catalogue_only"))
+                if not bad:
+                    ctx.count("catalogue_only_rule." + rule)
+                if bad and not real_rejects:
+                    fails(ctx, ed, f"specification rejected by the declarative rules ({', '.join(bad)}; edit {rule}, placed {placement}) is "
+                          f"accepted by the generator", {"rule": rule, "placement": placement, "checker": bad}, key="accepted:" + rule)
+                    if not ctx.known_match("accepted:" + rule):
+                        return
                 ctx.count(f"rule.{rule}")
                 ctx.count(f"placement.{placement}")
                 ctx.sig((rule, placement))
